@@ -567,6 +567,12 @@ def generic_check(p, prop, tier, seed, cfg):
     shutil.rmtree(os.path.join(p.replays, prop), ignore_errors=True)
     v = Verdict(prop, tier, seed, cfg["level"])
     plan = cfg["variants"][tier]
+    # development aid (tools/mutate.py): restrict a run to some build variants. Never set by the
+    # registered commands.
+    only = [x for x in os.environ.get("LZV_ONLY_VARIANTS", "").split(",") if x]
+    if only:
+        plan = [(vv, oo) for vv, oo in plan if vv in only] or plan[:1]
+        v.notes.append("restricted to variants " + ",".join(vv for vv, _ in plan) + " by LZV_ONLY_VARIANTS (development run)")
     binaries = {}
     for variant, _ in plan:
         b = build(p, variant)
